@@ -252,6 +252,15 @@ Definition add_namespace (u : option str) (m : nsmap) : nsmap :=
   | _ => m
   end.
 
+(* add_namespace(uri, prefixed=True): attributes need a non default prefix *)
+Definition prefixed_exists (u : str) (m : nsmap) : bool :=
+  existsb (fun e => truthy_prefix (fst e) && str_eqb (snd e) u) m.
+Definition add_namespace_attr (u : option str) (m : nsmap) : nsmap :=
+  match u with
+  | Some ((_ :: _) as u') => if prefixed_exists u' m then m else snd (generate_prefix u' m)
+  | _ => m
+  end.
+
 Definition truthy (o : option str) : bool := match o with Some (_ :: _) => true | _ => false end.
 
 (* start_namespaces: entries of ns_map that differ from the parent's *)
@@ -264,7 +273,7 @@ Definition flush_start (is_nil : bool) (s : wstate) : wstate * list sax :=
   | None => (s, [])
   | Some tag =>
       let attrs := if is_nil then w_attrs s else am_remove (w_attrs s) q_xsi_nil_m in
-      let m1 := fold_left (fun m a => add_namespace (fst (fst a)) m) attrs (w_map s) in
+      let m1 := fold_left (fun m a => add_namespace_attr (fst (fst a)) m) attrs (w_map s) in
       (* reset_default_namespace *)
       let m2 := if negb (truthy (fst tag)) && nm_has_key m1 None then nm_set m1 None [] else m1 in
       let parent := match w_parents s with p :: _ => p | [] => [] end in
@@ -814,20 +823,6 @@ Definition nil_content_ok (evs : list wevent) : bool := on_tree t_nil_ok evs.
 
 Definition user_default (user : nsmap) : option str := nm_get (serializer_ns_map user) None.
 
-(* the default namespace of the user map is printed without prefix also for attributes *)
-Definition root_attr_qnames (cfg : wconfig) : list qname :=
-  (match cfg_schema_location cfg with Some _ => [split_qname qn_xsi_schema_location] | None => [] end)
-  ++ (match cfg_no_ns_schema_location cfg with Some _ => [split_qname qn_xsi_no_namespace_schema_location] | None => [] end).
-Definition t_default_not_on_attr (u0 : str) : item -> bool :=
-  all_nodes (fun _ ats _ => forallb (fun a => negb (ostr_eqb (fst (fst a)) (Some u0))) ats) (fun _ => true).
-Definition default_not_on_attr (cfg : wconfig) (user : nsmap) (evs : list wevent) : bool :=
-  match user_default user with
-  | None => true
-  | Some u0 =>
-      on_tree (t_default_not_on_attr u0) evs
-      && forallb (fun q => negb (ostr_eqb (fst q) (Some u0))) (root_attr_qnames cfg)
-  end.
-
 (* a QName value in the user's default namespace is printed bare; an unqualified element
    then resets the default namespace *)
 Definition no_qname_in (u0 : str) (v : wvalue) : bool :=
@@ -860,8 +855,7 @@ Definition t_attrs_present : item -> bool :=
 Definition events_wf (evs : list wevent) : bool := well_nested_b evs && on_tree t_attrs_present evs.
 
 Definition user_map_ok (cfg : wconfig) (user : nsmap) (evs : list wevent) : bool :=
-  user_prefixes_legal user
-  && default_not_on_attr cfg user evs && default_qname_ok user evs.
+  user_prefixes_legal user && default_qname_ok user evs.
 
 Definition events_ok (cfg : wconfig) (evs : list wevent) : bool :=
   names_ok evs && texts_ok cfg evs && no_adjacent_data evs
@@ -887,7 +881,7 @@ Definition expected (cfg : wconfig) (evs : list wevent) : option enode :=
 
 (* the clauses of writer_guard, in a fixed order (used by the refutation lemmas) *)
 Definition clause_vector (cfg : wconfig) (user : nsmap) (evs : list wevent) : list bool :=
-  [ user_prefixes_legal user; default_not_on_attr cfg user evs;
+  [ user_prefixes_legal user;
     default_qname_ok user evs; names_ok evs; texts_ok cfg evs;
     no_adjacent_data evs; no_late_qname_data evs; nil_content_ok evs; no_clark_datatype_text evs;
     events_wf evs ].
